@@ -19,12 +19,14 @@ from hugr.ops import (
     Const,
     Custom,
     DataflowBlock,
+    DataflowOp,
     ExitBlock,
     FuncDecl,
     FuncDefn,
     Input,
     LoadConst,
     LoadFunc,
+    Op,
     Output,
     Tag,
     TailLoop,
@@ -58,8 +60,9 @@ class ModelExport:
         """Export the node with the given node id."""
         node_data = self.hugr[node]
 
-        inputs = [self.link_name(InPort(node, i)) for i in range(node_data._num_inps)]
-        outputs = [self.link_name(OutPort(node, i)) for i in range(node_data._num_outs)]
+        num_inputs, num_outputs = _listed_port_counts(node_data.op)
+        inputs = [self.link_name(InPort(node, i)) for i in range(num_inputs)]
+        outputs = [self.link_name(OutPort(node, i)) for i in range(num_outputs)]
         meta = []
 
         # Export JSON metadata
@@ -556,6 +559,23 @@ class ModelExport:
                 return op.val.to_model()
             case op:
                 return None
+
+
+def _listed_port_counts(op: Op) -> tuple[int, int]:
+    """The number of input and output ports a model node lists: the value ports
+    of the operation's signature (static and order ports have no counterpart in
+    the model), or the control flow ports of a basic block.
+    """
+    match op:
+        case DataflowBlock():
+            return 1, len(op.sum_ty.variant_rows)
+        case Call():
+            return len(op.instantiation.input), len(op.instantiation.output)
+        case DataflowOp():
+            sig = op.outer_signature()
+            return len(sig.input), len(sig.output)
+        case _:
+            return 0, 0
 
 
 def _mangle_name(node: Node, name: str) -> str:
